@@ -342,6 +342,13 @@ def analyse(fn, T, want_unchecked=True):
                             ents.append(e2[:5] + (p,))
                 continue
             rp = ap(r) if r["k"] in ("ref", "member") else None
+            if rp is None and r["k"] == "un" and r["op"] == "&":
+                # `&obj->first_member` (offset 0) is obj itself: storing it hands the object over
+                m_ = strip_casts(r["e"])
+                if m_ is not None and m_["k"] == "member" and m_.get("rec") in fn.unit.records:
+                    f0_ = fn.unit.records[m_["rec"]].field(m_["field"])
+                    if f0_ is not None and f0_.get("off") == 0:
+                        rp = ap(m_["base"])
             if rp is not None:
                 e2 = ent_get(ents, rp)
                 if e2 is not None:
